@@ -48,6 +48,7 @@ impl Ctr {
 pub const RULES: &[&str] = &[
     "no-instantiate", "two-instantiate", "two-migrate", "missing-new", "new-with-params",
     "interface-instantiate", "interface-migrate", "interface-generics", "interface-no-error",
+    "interface-instantiate-after-helper", "interface-migrate-after-helper",
     "reply-dup-success", "reply-dup-error", "reply-always-plus-success", "reply-always-plus-error", "reply-dup-always",
     "reply-payload-arity", "reply-payload-type",
     "data-not-first", "data-on-error", "data-on-always", "data-raw-instantiate",
@@ -97,7 +98,7 @@ pub fn make_invalid(rule: &str, tape: Vec<u32>) -> Option<Invalid> {
             inv("contract", "", citem.replacen(&line, "", 1), "", citem.clone())
         }
         "new-with-params" => inv("contract", "", citem.replacen("pub const fn new() -> Self", "pub const fn new(x: u32) -> Self", 1), "", citem.clone()),
-        "interface-instantiate" | "interface-migrate" | "interface-generics" | "interface-no-error" => {
+        "interface-instantiate" | "interface-migrate" | "interface-generics" | "interface-no-error" | "interface-instantiate-after-helper" | "interface-migrate-after-helper" => {
             if p.interfaces.is_empty() {
                 p.interfaces.push(Interface { module: "if_a".into(), trait_name: "IfA".into(), explicit_as: false, assoc: vec![], assoc_names: vec![], style: CustomStyle::Plain, methods: vec![], msg_attrs: vec![] });
             }
@@ -106,6 +107,9 @@ pub fn make_invalid(rule: &str, tape: Vec<u32>) -> Option<Invalid> {
             let item = match rule {
                 "interface-instantiate" => valid.replacen("type Error: From<StdError>;", "type Error: From<StdError>;\n    #[sv::msg(instantiate)]\n    fn vp_inst(&self, ctx: InstantiateCtx) -> Result<Response, Self::Error>;", 1),
                 "interface-migrate" => valid.replacen("type Error: From<StdError>;", "type Error: From<StdError>;\n    #[sv::msg(migrate)]\n    fn vp_mig(&self, ctx: MigrateCtx) -> Result<Response, Self::Error>;", 1),
+                // the offending method declared after a plain (un-annotated) helper method
+                "interface-instantiate-after-helper" => valid.replacen("type Error: From<StdError>;", "type Error: From<StdError>;\n    fn vp_helper(&self) -> u32 { 7 }\n    #[sv::msg(instantiate)]\n    fn vp_inst(&self, ctx: InstantiateCtx) -> Result<Response, Self::Error>;", 1),
+                "interface-migrate-after-helper" => valid.replacen("type Error: From<StdError>;", "type Error: From<StdError>;\n    fn vp_helper(&self) -> u32 { 7 }\n    #[sv::msg(migrate)]\n    fn vp_mig(&self, ctx: MigrateCtx) -> Result<Response, Self::Error>;", 1),
                 "interface-generics" => valid.replacen(&format!("pub trait {} {{", i.trait_name), &format!("pub trait {}<G> {{", i.trait_name), 1),
                 _ => valid.replacen("type Error: From<StdError>;", "", 1),
             };
